@@ -161,10 +161,22 @@ FaultTable == LET ns == <<0, 1, 520, 1500>>  kinds == <<"w", "w!", "wf", "wq", "
                   [seed |-> -i, n |-> n, kind |-> kind, fault |-> f,
                    steps |-> RunFixed(NewState(PathSet, 16), FaultScript(n, kind, f), 1)]]
 
+(* fixed scripts: the inputs of repaired defects, run by every execution of C02 / C20 *)
+CorpusScripts == <<
+    (* :xa failing on the unnamed buffer after it has written f1: f1 must count as saved, so that undoing makes it modified *)
+    << [k |-> "e", path |-> "f1", force |-> FALSE], [k |-> "a", n |-> 2], [k |-> "e", path |-> "f2", force |-> TRUE],
+       [k |-> "xa", force |-> FALSE, fault |-> ""], [k |-> "e", path |-> "f1", force |-> FALSE], [k |-> "u"],
+       [k |-> "q", force |-> FALSE, fault |-> ""] >>,
+    (* a partial write to the buffer's own file does not make it unmodified *)
+    << [k |-> "e", path |-> "f1", force |-> FALSE], [k |-> "a", n |-> 2],
+       [k |-> "w", path |-> "", whole |-> FALSE, beg |-> 0, end |-> 1, force |-> TRUE, fault |-> ""], [k |-> "q", force |-> FALSE, fault |-> ""] >> >>
 Seed0 == EnvN("SEED0", 1)
 NScripts == EnvN("NSCRIPTS", 4)
 NSteps == EnvN("NSTEPS", 30)
-Table == IF Env("MODE", "") = "faults" THEN FaultTable ELSE
+Table == IF Env("MODE", "") = "faults" THEN FaultTable
+         ELSE IF Env("MODE", "") = "corpus"
+         THEN [i \in 1..Len(CorpusScripts) |-> [seed |-> 0 - i, steps |-> RunFixed(NewState(PathSet, 16), CorpusScripts[i], 1)]]
+         ELSE
          [k \in 1..NScripts |-> [seed |-> Seed0 + k - 1,
                                  steps |-> Script(NewState(PathSet, 16), Seed0 + k - 1, 1, NSteps)]]
 Init == dummy = 0 /\ ndJsonSerialize(Env("OUT", "/tmp/gen_bufs.ndjson"), Table)
